@@ -241,6 +241,22 @@ def rpc_pairing(env):
                 clause='each RPC yields its own response or an error; responses are never swapped; no request is delivered to a handler more than once')
 
 
+def end_to_end_fidelity(env):
+    """C02 / C07 end to end on real networks with both default timeouts configured: 62 calls with header maps of 0..300 entries (incl. a `timeout`
+    header longer / shorter than the defaults), bodies of 0..300000 bytes, every error status, response header maps of 0..300 entries, both directions"""
+    got = _run('end_to_end_fidelity', {}, env, timeout=240)
+    fails = []
+    if got.get('panicked'):
+        fails.append(dict(scenario='end_to_end_fidelity', args={}, expected=dict(note='no panic'), observed=got))
+    for b in got.get('bad') or []:
+        fails.append(dict(scenario='end_to_end_fidelity', args=b['case'], expected=dict(note='the handler receives exactly (route, headers, body) as sent; the caller receives exactly (status, headers, body) as produced'), observed=b))
+    if not fails and got.get('calls') != 62:
+        raise Undecided('end_to_end_fidelity scenario made %s calls' % got.get('calls'))
+    return dict(name='end_to_end_fidelity', validates='the whole path between Network::rpc and the handler on real networks with every built-in middleware active (the contracts cover do_rpc / do_handle and each middleware separately)',
+                cases=int(got.get('calls') or 0), failed=fails, ok=not fails, props=['C02', 'C07'],
+                clause='every RPC that completes successfully returns exactly the response (status, headers, body) the remote handler produced for exactly the request (route, headers, body) the caller sent')
+
+
 _HIST = {}
 
 
@@ -313,6 +329,34 @@ def history_c04(env):
     return _history_check(env, 'history_c04_c05', ['C04', 'C05'], 'the event stream is an exact change log of the listing; a mutual dial leaves exactly one shared connection', pred)
 
 
+def mutual_dial_inflight(env):
+    """C05 / C04 on real networks: one side dials, requests are put in flight over that connection through Network::rpc (none / from either side /
+    from both), then the other side dials back; both key orders"""
+    got = _run('mutual_dial_inflight', {}, env, timeout=240)
+    fails = []
+    if got.get('panicked'):
+        fails.append(dict(scenario='mutual_dial_inflight', args={}, expected=dict(note='no panic'), observed=got))
+    runs = got.get('runs') or []
+    for r in runs:
+        why = None
+        if not r['first_dial_ok']:
+            why = 'the first dial failed'
+        elif r['first_lists_second'] != 1 or r['second_lists_first'] != 1 or not r['rpc_first_to_second'] or not r['rpc_second_to_first']:
+            why = 'after a mutual dial each side must list the other exactly once and RPCs must work both ways, whatever was in flight on the connection that lost the tie-break'
+        else:
+            for side in ('first', 'second'):
+                rep = _replay_events(r[side]['snapshot'], r[side]['events'])
+                if rep is None or sorted(rep) != sorted(r[side]['listing']):
+                    why = 'the event stream of the %s node does not replay to its listing' % side
+        if why:
+            fails.append(dict(scenario='mutual_dial_inflight', args=dict(first_key=r['first_key'], second_key=r['second_key'], in_flight_from_first=r['in_flight_from_first'], in_flight_from_second=r['in_flight_from_second']),
+                              expected=dict(violated=why), observed=r))
+    if not fails and len(runs) != 8:
+        raise Undecided('mutual_dial_inflight scenario reported %d runs' % len(runs))
+    return dict(name='mutual_dial_inflight', validates='real networks over loopback: dial, requests in flight (4 patterns), dial back; both orders of the two identities', cases=len(runs), failed=fails, ok=not fails,
+                props=['C05', 'C04'], clause='a mutual dial leaves exactly one shared connection on which RPCs succeed in both directions; the end of the replaced connection (and of requests still in flight on it) never removes or disturbs its replacement')
+
+
 def history_c09(env):
     def pred(g):
         s = [x for x in g['steps'] if x['step'] == 'A disconnects C'][0]
@@ -325,6 +369,24 @@ def history_c09(env):
             return 'the other side did not report the connection lost within a second'
         return None
     return _history_check(env, 'history_c09', ['C09'], 'an explicit disconnect removes the peer locally at once with LostPeer(Requested), later RPCs fail, and the other side reports the loss', pred)
+
+
+def panicking_handler(env):
+    """C09 on real networks (idle timeout 1.5 s): the application code serving one request panics on one of three connected nodes; 2.5 s later every
+    ordered pair of nodes must have mutual views and every listed peer must answer an RPC"""
+    got = _run('panicking_handler', {}, env, timeout=120)
+    fails = []
+    if got.get('panicked'):
+        fails.append(dict(scenario='panicking_handler', args={}, expected=dict(note='the scenario finishes'), observed=got))
+    views = got.get('views') or []
+    for v in views:
+        if v['x_lists_y'] != v['y_lists_x'] or (v['x_lists_y'] and not v['x_reaches_y_by_rpc']):
+            fails.append(dict(scenario='panicking_handler', args=dict(pair=[v['x'], v['y']]), expected=dict(note='x lists y iff y lists x, and a listed peer answers an RPC'), observed=v))
+            break
+    if not fails and len(views) != 6:
+        raise Undecided('panicking_handler scenario reported %d views' % len(views))
+    return dict(name='panicking_handler', validates='what the connection manager and the per-connection handler do when a request task panics (their select! loops are outside every contract), on three real nodes', cases=len(views), failed=fails, ok=not fails,
+                props=['C09'], clause='after connectivity has been fault-free for longer than the idle timeout, A lists B iff B lists A, and every listed peer can be reached by RPC')
 
 
 def decode_sweep(env):
@@ -587,6 +649,103 @@ def identity_claims_in_headers(env):
     return dict(name='identity_claims_in_headers', validates='the typed RPC client, Network::rpc and the inbound handler on real networks: %d header names (declared by the library or guessable) x 7 spellings of another peer\'s identity x 5 reply statuses, and 7 requests from a raw dialer' % len(names),
                 cases=len(replies) + len(requests), failed=fails, ok=not fails, props=['C01'],
                 clause='the PeerId a handler sees on a request and a caller sees on a response (or on the error status made from it) cannot be supplied or influenced by anything carried in the message')
+
+
+ROUTE_PATTERNS = ['/a', '/a/b', '/s/*rest', '/t/*rest', '/']
+ROUTE_QUERIES = ['', '/', '/a', '/a/', '/a/b', '/a/b/c', '/s', '/s/', '/s/x', '/s/x/y', '/t/m', '/u', 'a', '/A', '/s/*rest', '//', '/s//', '/\u00e9', '/s/\u00e9/\u6f22', '/a?x=1',
+                 '/a#b', '/%61', '/s/' + 'x' * 3000, '/' + 'a/' * 500, '/a\x00', '/:x', '/*rest', ' /a', '/a ', '/S/x']
+
+
+def _route_pattern_matches(p, q):
+    """the statement's reading of a pattern: an exact path, or a wildcard tail (None: the empty tail, which the statement leaves open)"""
+    star = p.find('*')
+    if star < 0:
+        return p == q
+    if q == p[:star]:
+        return None
+    return q.startswith(p[:star])
+
+
+def _route_oracle(ops, next_id):
+    """(table, ops with ids) of a router built by `ops`, or None if building it must panic: [pattern, service id, middleware ids innermost first]"""
+    table = []
+    for op in ops:
+        if op[0] in ('route', 'rpc'):
+            pat = op[1] if op[0] == 'route' else '/%s/*rest' % op[1]
+            if any(e[0] == pat for e in table):
+                return None
+            table.append([pat, op[2], []])
+        elif op[0] == 'layer':
+            for e in table:
+                e[2].append(op[1])
+        elif op[0] == 'merge':
+            sub = _route_oracle(op[1], next_id)
+            if sub is None or any(e[0] == f[0] for e in sub for f in table):
+                return None
+            table.extend(sub)
+        elif op[0] == 'nest':
+            return None
+    return table
+
+
+def routing_table(env):
+    """C16 on the real Router with the real matchit: routers built by every sequence of up to 2 operations and a seeded sample of longer ones, each
+    asked 30 route strings (empty, odd, unicode, very long, well-formed); compared with the statement's reading of the patterns"""
+    import itertools
+    import random
+    rng = random.Random(int(os.environ.get('VERIF_SEED', '1') or 1))
+    counter = itertools.count(1)
+
+    def fresh(op):
+        if op[0] == 'route':
+            return ['route', op[1], next(counter)]
+        if op[0] == 'rpc':
+            return ['rpc', op[1], next(counter)]
+        if op[0] == 'layer':
+            return ['layer', next(counter)]
+        if op[0] == 'merge':
+            return ['merge', [fresh(o) for o in op[1]]]
+        return list(op)
+    basic = [('route', p) for p in ROUTE_PATTERNS] + [('rpc', 's'), ('rpc', 't'), ('layer',)]
+    subs = [[a] for a in basic] + [[a, b] for a in basic for b in basic]
+    top = basic + [('merge', sub) for sub in subs] + [('nest', '/n')]
+    seqs = [[a] for a in top] + [[a, b] for a in top for b in basic] + [[a, b] for a in basic for b in top if b[0] == 'merge']
+    for _ in range(1500 if env.get('tier') != 'thorough' else 6000):
+        seqs.append([rng.choice(top) for _ in range(rng.choice((3, 3, 4, 5)))])
+    routers = [[fresh(o) for o in sq] for sq in seqs]
+    got = _run('routing_table', dict(routers=routers, queries=ROUTE_QUERIES), env, timeout=300)
+    fails = []
+    if got.get('panicked'):
+        fails.append(dict(scenario='routing_table', args=dict(routers=len(routers)), expected=dict(note='the scenario finishes'), observed=got))
+    res = got.get('routers') or []
+    for ops, r in zip(routers, res):
+        if len(fails) >= 5:
+            break
+        table = _route_oracle(ops, None)
+        if (table is None) != bool(r.get('build_panicked')):
+            fails.append(dict(scenario='routing_table', args=dict(routers=[ops], queries=[]), expected=dict(build_panicked=table is None, note='registering a pattern twice (directly or by merging) or a Router as a route is refused; nothing else is'), observed=r))
+            continue
+        if table is None:
+            continue
+        for q, ans in zip(ROUTE_QUERIES, r['answers']):
+            verdicts = [(e, _route_pattern_matches(e[0], q)) for e in table]
+            hits = [e for e, v in verdicts if v is True]
+            maybe = [e for e, v in verdicts if v is None]
+            not_found = dict(status=404, svc=None, trace=[])
+            if hits:
+                allowed = [dict(status=200, svc=hits[0][1], trace=hits[0][2])]
+            elif maybe:
+                allowed = [dict(status=200, svc=maybe[0][1], trace=maybe[0][2]), not_found]
+            else:
+                allowed = [not_found]
+            if len(hits) > 1 or ans not in allowed:
+                fails.append(dict(scenario='routing_table', args=dict(routers=[ops], queries=[q]), expected=dict(one_of=allowed), observed=ans))
+                break
+    if not fails and len(res) != len(routers):
+        raise Undecided('routing_table scenario reported %d routers of %d' % (len(res), len(routers)))
+    return dict(name='routing_table', validates='the real Router on the real matchit trie and real tower services: %d routers (every sequence of up to 2 operations, a seeded sample of longer ones; operations: 5 patterns, 2 RPC services, route-level middleware, merge of a sub-router, a nested Router) x %d route strings' % (len(routers), len(ROUTE_QUERIES)),
+                cases=len(routers) * len(ROUTE_QUERIES), failed=fails, ok=not fails, props=['C16'],
+                clause='a request is dispatched to exactly the service registered for the pattern matching its route, behind exactly the route-level middleware applied after that route was registered; any unmatched route gets NotFound with no middleware run; routing never panics on any route string; merging preserves every route\'s service and middleware')
 
 
 def auth_scenarios(env):
